@@ -420,7 +420,15 @@ func c08StateTables(r *Run) {
 					r.Undecided("C08.R4", "store Status.State", pos, shortFunc(fn), "the state is neither a constant nor the result of a repository state function of the annotations")
 					continue
 				}
-				okArg := annotationsOf(isEDSVal)(stripConv(call.Call.Args[0]))
+				// the annotations may reach the helper through its parameters: follow them to the call sites
+				okArg := true
+				srcs := argSources(r.Prog, call.Call.Args[0], 0)
+				for _, src := range srcs {
+					if !annotationsOf(isEDSVal)(src) {
+						okArg = false
+					}
+				}
+				okArg = okArg && len(srcs) > 0
 				r.Check("C08.R4", "store Status.State="+shortFunc(g)+"(annotations)", pos, shortFunc(fn), "the non-canary state is computed from the reconciled object's annotations", okArg, "argument "+describeVal(call.Call.Args[0]))
 				nonCanaryFns[g] = true
 			}
@@ -428,30 +436,33 @@ func c08StateTables(r *Run) {
 	}
 	// non-canary table
 	for _, g := range sortedFuncs(nonCanaryFns) {
-		paths, _, ok := funcPaths(g, 5000)
-		r.paths += len(paths)
+		// the outcomes of the state function: one per path, or — when it scans an ordered table of
+		// {predicate, state} rows — one per row plus the default
+		outcomes, ok := tableScanOutcomes(r.Prog, g)
+		if !ok {
+			outcomes, ok = pathOutcomes(g)
+		}
+		r.paths += len(outcomes)
 		if !ok || len(g.Params) != 1 {
 			r.Undecided("C08.R4", "non-canary state table", r.Prog.Pos(g.Pos()), shortFunc(g), "path cap exceeded or unexpected signature")
 			continue
 		}
 		arg := g.Params[0]
-		atom := func(p *Path, reader string) tri {
+		atom := func(o decisionOutcome, reader string) tri {
 			t := triUnknown
-			for _, f := range p.Facts {
-				if call, isC := f.V.(*ssa.Call); isC && calleeName(&call.Call) == pkgEDS+"."+reader && len(call.Call.Args) == 1 && stripConv(call.Call.Args[0]) == ssa.Value(arg) {
-					t = triOf(f.Pol)
+			for _, pf := range o.preds {
+				if funcName(pf.fn) == pkgEDS+"."+reader && len(pf.args) == 1 && stripConv(pf.args[0]) == ssa.Value(arg) {
+					t = triOf(pf.pol)
 				}
 			}
 			return t
 		}
 		seen := map[string]bool{}
-		for _, p := range paths {
-			ret := returnOf(p.Blocks[len(p.Blocks)-1])
-			res := p.Resolve(ret.Results[0])
-			s, isC := constString(res)
-			fr, pa := atom(p, "IsRolloutFrozen"), atom(p, "IsRollingUpdatePaused")
+		for _, o := range outcomes {
+			s, isC := constString(o.result)
+			fr, pa := atom(o, "IsRolloutFrozen"), atom(o, "IsRollingUpdatePaused")
 			construct := fmt.Sprintf("non-canary state on path [frozen=%v paused=%v]", fr, pa)
-			pos := r.Prog.Pos(instrPos(ret))
+			pos := r.Prog.Pos(o.pos)
 			if !isC {
 				r.Undecided("C08.R4", construct, pos, shortFunc(g), "the returned state is not a constant on this path")
 				continue
